@@ -7,7 +7,8 @@ set-ups.  Oracle: independently accumulated dense system; (i) returns its argume
 (ii) residual on interior and boundary rows, (iii) == solveMatrixPDE of the hand-assembled
 system, (iv) order independence, (v) ghost rows of every builder are exactly zero,
 (vi) superposition in sources, boundary data and previous values, (vii) an external solver
-receives the identical system and its answer ends up in the variable.
+receives the identical system and its answer ends up in the variable, (viii) all sequences of three
+solves on one variable over an alphabet of nearly equal / rescaled / structurally different systems.
 """
 import itertools
 
@@ -56,6 +57,7 @@ def cases(tier):
                         out.append({"grid": s, "setup": setup, "part": "programs", "first": [first] if first != "-" else [], "L": L})
                 out.append({"grid": s, "setup": setup, "part": "superposition"})
                 out.append({"grid": s, "setup": setup, "part": "resolve"})
+                out.append({"grid": s, "setup": setup, "part": "sequences"})
     for s in U.grid_specs(tier):
         out.append({"grid": s, "part": "ghostrows"})
     return out
@@ -63,7 +65,7 @@ def cases(tier):
 
 def weight(case):
     n = int(np.prod([k + 2 for k in case["grid"]["shape"]]))
-    return n * {"programs": 150, "superposition": 60, "ghostrows": 1, "resolve": 10}[case["part"]]
+    return n * {"programs": 150, "superposition": 60, "ghostrows": 1, "resolve": 10, "sequences": 120}[case["part"]]
 
 
 def make_bc(g, setup):
@@ -328,6 +330,66 @@ def _resolve_part(g, case, res):
                               "detail": {"grid": U.spec_id(g.spec), "kind": kind, "round": rnd, "setup": setup}})
 
 
+SYSTEMS = ["base", "ppm", "x3", "tiny", "tiny_x3", "src", "conv"]
+
+
+def _sequences_part(g, case, res):
+    """All sequences of three solvePDE calls on ONE variable (built-in solver) over an alphabet of systems
+    that differ from each other by a few ppm, by a factor, only in the sources, in sparsity, or are
+    expressed in units in which every coefficient is ~1e-9.  After every call the stored values must
+    solve the system assembled from that call's terms and the current BCs (dense reference solve)."""
+    F = res["findings"]
+    setup = case["setup"]
+    env = Env(g, setup)
+    m = g.mesh
+    arrD = g.face_arrays(env.D)
+    tiny = 2.0 ** -30
+
+    def terms_of(name):
+        k = {"base": 1.0, "ppm": 1.0 + 2.0 ** -18, "x3": 3.0, "tiny": tiny, "tiny_x3": 3.0 * tiny, "src": 1.0, "conv": 1.0}[name]
+        t = k if name in ("tiny", "tiny_x3") else 1.0          # tiny*: the whole equation in other units
+        D = U.face_from_arrays(m, [a * k for a in arrD])
+        out = [-pf.diffusionTerm(D), t * pf.linearSourceTerm(env.beta), t * pf.constantSourceTerm(env.gamma)]
+        if name == "src":
+            out.append(2.0 * pf.constantSourceTerm(env.gamma))
+        if name == "conv":
+            out.append(pf.convectionUpwindTerm(env.u))
+        return out
+
+    seen = set()
+    for seq in itertools.product(SYSTEMS, repeat=3):
+        phi = pf.CellVariable(m, U.generic_array(g.dims, tag=361, signed=True), make_bc(g, setup))
+        for si, name in enumerate(seq):
+            terms = terms_of(name)
+            Mbc, rbc = pf.boundaryConditionsTerm(phi.BCs)
+            Mref, rref = assemble(Mbc, rbc, terms)
+            rs = np.max(np.abs(Mref), axis=1)
+            rs[rs == 0] = 1.0
+            Meq = Mref / rs[:, None]
+            kap = float(np.linalg.cond(Meq, np.inf)) if np.all(np.isfinite(Meq)) else np.inf
+            if not np.isfinite(kap) or kap * EPS > 1e-6:
+                res["precond_failed"] = res.get("precond_failed", 0) + 1
+                break
+            want = np.linalg.solve(Meq, rref / rs)
+            ret = pf.solvePDE(phi, terms)
+            res["evals"] += 1
+            res["nontrivial"] += 1
+            got = np.asarray(phi._value, dtype=float).ravel()
+            live = g.imask | (np.abs(Mref).sum(axis=1) > 0)      # corner ghosts are not part of the system
+            err = float(np.max(np.abs(got - want)[live]))
+            tol = 64 * EPS * kap * max(1.0, float(np.max(np.abs(want[live]))))
+            if ret is not phi or not err <= tol:
+                k = "C04:sequence:%s:%s" % ("->".join(seq[max(0, si - 1):si + 1]) if si else seq[0], g.cls)
+                if k not in seen:
+                    seen.add(k)
+                    F.append({"key": k, "msg": "solve #%d of the sequence %s on one variable on %s (%s BCs): stored values differ from the solution of "
+                                               "the system assembled from this call's terms by %.3g (tolerance %.3g)"
+                                               % (si + 1, list(seq), U.spec_id(g.spec), setup, err, tol),
+                              "detail": {"grid": U.spec_id(g.spec), "sequence": list(seq), "setup": setup}})
+                break
+    res["sample"] = {"grid": U.spec_id(g.spec), "sequences": len(SYSTEMS) ** 3}
+
+
 def _ghostrows_part(g, res):
     F = res["findings"]
     ghost = ~g.imask
@@ -367,6 +429,8 @@ def run_case(case):
         _superposition_part(g, case, res)
     elif part == "resolve":
         _resolve_part(g, case, res)
+    elif part == "sequences":
+        _sequences_part(g, case, res)
     else:
         _ghostrows_part(g, res)
     res["outcomes"] = {"%s:%s" % (part, "ok" if not res["findings"] else "viol"): 1}
